@@ -251,6 +251,13 @@ func Run(o Options) int {
 	h.MustMkdir(workDir)
 	h.MustMkdir(filepath.Join(vdir, "evidence"))
 	h.MustMkdir(filepath.Join(vdir, "replays"))
+	if o.Replay == "" {
+		if old, _ := filepath.Glob(filepath.Join(vdir, "replays", p.ID+"-*.json")); old != nil {
+			for _, f := range old {
+				os.Remove(f)
+			}
+		}
+	}
 	keepWork := os.Getenv("VERIF_KEEP_WORK") != ""
 	defer func() {
 		if !keepWork {
